@@ -3,6 +3,7 @@ package model
 import (
 	"math"
 	"strings"
+	"unicode/utf8"
 )
 
 // NatCmp compares two non-null cells of the same column in the natural order of the type
@@ -175,4 +176,19 @@ func strconvItoa(n int) string {
 		n /= 10
 	}
 	return string(b[i:])
+}
+
+// ReplaceInvalidUTF8 replaces every invalid byte (each one separately) by U+FFFD.
+func ReplaceInvalidUTF8(s string) string {
+	var sb strings.Builder
+	for i := 0; i < len(s); {
+		r, w := utf8.DecodeRuneInString(s[i:])
+		if r == utf8.RuneError && w == 1 {
+			sb.WriteString("�")
+		} else {
+			sb.WriteString(s[i : i+w])
+		}
+		i += w
+	}
+	return sb.String()
 }
